@@ -90,7 +90,7 @@ def run(rep, work, rng, tier):
                         sig = 'unfilled-or-nonuniform-frame-saved'
                     elif (comp.startswith('data.length') or comp.startswith('frames.count') or comp.startswith('hdr.frames')) and snap.h['npts'] == 0 and snap.h['nanalogs'] == 0:
                         sig = 'frames-without-points-or-channels'
-                    elif comp.startswith('param[') and filecmp.beyond_capacity(snap): sig = 'content-beyond-format-capacity'
+                    elif (comp.startswith('param[') or comp.startswith('record.') or comp.startswith('section.') or comp.startswith('group')) and filecmp.beyond_capacity(snap): sig = 'content-beyond-format-capacity'
                     elif (comp.startswith('group') or comp.startswith('param')) and c01.case_collision(snap): sig = 'names-differ-only-by-case'
                     if rep.violation('oracle', 'the saved file does not decode to the object: %s' % d,
                                      script=[l for l in hist if not l.startswith('snap') and not l.startswith('fsum')], signature=sig):
